@@ -234,6 +234,19 @@ def cases(tier, shard, nshards):
         if n % nshards != shard:
             continue
         yield Case("c := chr(%s); [c, ord(c)]" % lit_int(cp), {"f": "chr", "cp": str(cp)})
+    # ---------- E0: JSON texts with escapes / whitespace / exponent forms, decode only
+    texts = ['"\\u00e9"', '"\\ud83d\\ude00"', '"a\\tb\\/c\\b\\f\\r"', ' [ 1 , 2 ] ', '{ "a" : { "b" : [ ] } }', '1E2', '1.5e-3', '[[],[[]]]', '"\\u0041\\u0000"',
+             '123456789012345678', '-9223372036854775808', '0.1', '[true, false, null]', '{"a": 1, "a": 2}']
+    for t in texts:
+        n += 1
+        if n % nshards != shard:
+            continue
+        try:
+            v = json.loads(t)
+        except ValueError:
+            continue
+        yield Case("json_decode(%s)" % lit_str(t), {"f": "json", "v": v, "op": "literal"})
+        yield Case("json_decode(json_encode(json_decode(%s)))" % lit_str(t), {"f": "json", "v": v, "op": "literal"})
     # ---------- E: JSON-shaped values
     for (v, lit, txt) in json_values(tier):
         n += 1
